@@ -156,6 +156,10 @@ def containers(root):
     seen, out, stack = set(), [], [root]
     while stack:
         x = stack.pop()
+        if isinstance(x, tuple):
+            # a tuple is immutable but what it holds is reachable (and may be mutable): walk through it
+            stack.extend(reversed(list(x)))
+            continue
         if not is_container(x) or id(x) in seen:
             continue
         seen.add(id(x))
